@@ -11,6 +11,10 @@ pub fn run(cx: &mut Ctx) {
         units::dimension_discipline(cx, "C09.D1", &facts);
         funnel(cx, &facts);
     }
+    for (label, f) in units::extra_facts(cx, "C09.U1") {
+        units::position_comparisons(cx, &format!("C09.U1@{}", label), &f);
+        units::dimension_discipline(cx, &format!("C09.D1@{}", label), &f);
+    }
     units::error_offsets(cx, "C09.E2");
     offset_threading(cx);
     projections(cx);
